@@ -3,6 +3,7 @@ import ast
 
 from .. import astutil as A
 from .. import paths as P
+from ..loader import methods
 from ..effects import Effects
 from ..kinds import Kinds, DICT, MAYBE
 from ..taint import Interp, Policy, Val, Fresh, IMMUTABLE
@@ -30,6 +31,8 @@ EXPLANATION = (
     "list and dictionary notations cannot disagree on how deep a path reaches.  (j) The look-up and conversion functions mutate none of their parameters through any "
     "alias (an effect summary over assignments, loops and callees).  Does not decide agreement of the three notations on values.")
 RULES = {
+    "C08-k": "COPY-SAFE: no method other than __init__ compares an attribute with a module-level object() sentinel by identity",
+    "C08-l": "GUARD: every 'take the first key' step over the dictionary notation of a key follows len(<that dictionary>) == 1",
     "C08-a": "GUARD: dictionary operations on values reached by descending into a context are dominated by isinstance(., dict)",
     "C08-b": "GUARD: [-1]/[0] of a key list is dominated by a non-emptiness test or a constructor check",
     "C08-c": "exception discipline: only LenaTypeError/LenaValueError/LenaKeyError are raised; to_string uses sort_keys=True",
@@ -846,7 +849,117 @@ def check_read_only(ctx):
     ctx.instances_floor("C08-j", n, 6, "read-only context functions")
 
 
+def check_sentinel_identity(ctx):
+    """A module-level `object()` sentinel marks "no value given" for a *parameter*.  An element that keeps the parameter in an
+    attribute and asks `self._x is _sentinel` later (outside __init__) loses the answer when it is copied: copy.deepcopy makes
+    a new object for the attribute, and the framework copies elements itself (SplitIntoBins and MapBins copy their analysis
+    per cell, Split copies nothing but users copy sequences).  The copy then takes the sentinel for a real value.  So the
+    question is asked once, in __init__, and remembered in a flag (as UpdateContext._has_default does)."""
+    res = ctx.res
+    n_sent = n_cmp = 0
+    for modname in sorted(ctx.tree.modules):
+        mod = ctx.tree.modules[modname]
+        sentinels = set()
+        for st in mod.tree.body:
+            if isinstance(st, ast.Assign) and len(st.targets) == 1 and isinstance(st.targets[0], ast.Name) and isinstance(st.value, ast.Call) \
+                    and res.call_canon(st.value) == "builtins.object" and not st.value.args:
+                sentinels.add(st.targets[0].id)
+        if not sentinels:
+            continue
+        n_sent += len(sentinels)
+        for cls in [c for c in mod.tree.body if isinstance(c, ast.ClassDef)]:
+            if any(m in methods(cls) for m in ("__deepcopy__", "__copy__", "__reduce__", "__reduce_ex__", "__getstate__")):
+                continue
+            for name, fn in methods(cls).items():
+                for t in A.walk_local(fn):
+                    if not (isinstance(t, ast.Compare) and len(t.ops) == 1 and isinstance(t.ops[0], (ast.Is, ast.IsNot))):
+                        continue
+                    sides = [t.left, t.comparators[0]]
+                    if not any(isinstance(x, ast.Name) and x.id in sentinels for x in sides):
+                        continue
+                    n_cmp += 1
+                    attr = [x for x in sides if isinstance(x, ast.Attribute) and A.is_self_attr(x)]
+                    if attr and name != "__init__":
+                        ctx.violation("C08-k", t, "%s.%s asks `%s`: the identity of the module sentinel does not survive copy.deepcopy of "
+                                      "the element (the framework copies elements per cell), a copy takes 'no value given' for a value"
+                                      % (cls.name, name, A.src(t)), construct="sentinel-identity:%s.%s" % (cls.name, attr[0].attr))
+    ctx.note("module_sentinels", n_sent)
+    ctx.instances_floor("C08-k", n_sent, 2, "module-level object() sentinels")
+    if n_sent:
+        ctx.ok("C08-k", ctx.tree.func("lena.context.update_context", "UpdateContext.__init__"),
+               "%d identity comparisons with module sentinels in classes: none on an attribute outside __init__" % n_cmp)
+
+
+def check_one_key_each_level(ctx):
+    """The dictionary notation of a key ({'a': {'b': 'c'}}) names one item only if every level has exactly one key.
+    get_recursively walks the notation by taking *the first* key of each level (`for key in keys: ...; break`): each such
+    step must be preceded, for the dictionary of that very step, by the test `len(keys) != 1` -> LenaValueError.  Validated
+    only at the top, an ambiguous deeper level silently addresses whichever key was inserted first."""
+    fn = ctx.tree.func(FN, "get_recursively")
+    n = 0
+    for loop in [l for l in A.walk_local(fn) if isinstance(l, ast.For) and isinstance(l.iter, ast.Name)]:
+        body = [b for b in loop.body if not A.is_noop_stmt(b)]
+        if not body or not isinstance(body[-1], ast.Break) or loop.orelse:
+            continue
+        d = loop.iter.id
+        # only dictionaries are entered this way: the loop rebinds the name to a sub-dictionary
+        if not any(isinstance(b, ast.Assign) and any(d in A.target_names(t) for t in b.targets) for b in body):
+            continue
+        n += 1
+        outer = A.enclosing(loop, (ast.While, ast.For))
+        paths = P.loop_body_paths(outer) if outer is not None else P.paths_of(fn)
+        hit = 0
+        for p in paths:
+            idx = [i for i, e in enumerate(p.ev) if e[0] in ("iter", "loop0") and e[1] is loop]
+            if not idx:
+                continue
+            hit += 1
+            i0 = idx[0]
+            # the last rebinding of the dictionary name before the step, on this path
+            last = -1
+            for i, e in enumerate(p.ev[:i0]):
+                if e[0] in ("stmt", "partial") and d in [x for t in A.assigned_targets(e[1]) for x in A.target_names(t)]:
+                    last = i
+                elif e[0] == "iter" and e[1] is not loop and d in A.target_names(e[1].target):
+                    last = i
+            # the condition of the segment, case by case (an untaken `a and b` is `not a` or `not b`); cases that contradict
+            # themselves (an atom taken both ways) do not exist
+            seg = P.Path([e for e in p.ev[last + 1:i0] if e[0] == "cond"], "fall")
+            single = True
+            n_cases = 0
+            for case in seg.cases():
+                pols = {}
+                contradictory = False
+                for t, pol in case:
+                    k = A.src(t)
+                    if pols.setdefault(k, pol) != pol:
+                        contradictory = True
+                if contradictory:
+                    continue
+                n_cases += 1
+                one = False
+                for t, pol in case:
+                    lc = K.linear_cmp(t) if isinstance(t, ast.Compare) else None
+                    if lc is None or set(lc[0]) != {"len(%s)" % d}:
+                        continue
+                    coef, const_, op = lc if pol else K.negate_linear(lc)
+                    a = coef["len(%s)" % d]
+                    if op == "==" and a != 0 and -const_ / float(a) == 1:
+                        one = True
+                single = single and one
+            single = single and n_cases > 0
+            ctx.check("C08-l", single, loop, "get_recursively takes the first key of the key dictionary `%s` on path [%s] without having "
+                      "checked that this level has exactly one key (the check must follow the last rebinding of `%s`): an ambiguous "
+                      "nested key addresses whichever entry comes first instead of raising LenaValueError" % (d, p.describe(4), d),
+                      detail="first key taken only under len(%s) == 1 [%s]" % (d, p.describe(2)), construct="first-key-unchecked", path=p)
+        if outer is not None and not hit:
+            ctx.unknown("C08-l", loop, "no path of the enclosing loop reaches the first-key step")
+    ctx.instances_floor("C08-l", n, 1, "first-key steps in get_recursively")
+
+
 def check(ctx):
+    check_sentinel_identity(ctx)
+    check_one_key_each_level(ctx)
     check_read_only(ctx)
     check_one_key_per_step(ctx)
     check_lookup_and_snapshot(ctx)
@@ -861,6 +974,8 @@ def check(ctx):
 
 
 VARIANTS = [
+    M("default-by-sentinel-identity", "lena/context/update_context.py", "                if not self._has_default:", "                if self._default is _sentinel:", ["C08-k"]),
+    M("dict-key-validated-at-top-only", "lena/context/functions.py", "            if isinstance(keys, dict) and len(keys) != 1:", "            if isinstance(keys, dict) and len(keys) != 1 and not new_keys:", ["C08-l"]),
     M("get-recursively-pops-keys", "lena/context/functions.py", "    for key in keys[:-1]:\n        if key in d and isinstance(d.get(key), dict):", "    last_key = keys.pop() if keys else None\n    keys.append(last_key)\n    keys.pop()\n    for key in keys[:-1]:\n        if key in d and isinstance(d.get(key), dict):", ["C08-j"]),
     M("contains-breaks-at-scalar", "lena/context/functions.py", "        if not isinstance(subdict, dict) or key not in subdict:\n            return False\n",
       "        if not isinstance(subdict, dict):\n            break\n        if key not in subdict:\n            return False\n", ["C08-i"]),
